@@ -11,6 +11,10 @@ scan() -> {"random": [...], "writes": [...], "parallel": [...], "seedless": [...
             `random_state or default`, `x if random_state else y` ...  The integer seed 0 is a legitimate seed and is
             falsy, so such a test treats it as "unseeded".  (`is None` / `== 0` comparisons are not flagged.)
             item: {"file", "func", "expr"}
+  shared    module-level estimator INSTANCES (`_DEFAULT = SomeEstimator(...)` at module level, the class being a
+            package class with a `fit` method or imported from sklearn) that a function uses other than as the direct
+            argument of clone(...) / deepcopy(...): every object of the class would then share (and refit) one instance.
+            item: {"file", "func", "name"}
   seedless  estimator classes that take a `random_state` constructor parameter but never read
             `self.random_state` outside `__init__` (nor pass `random_state=` on) in the class or its bases
             within the package.  item: {"file", "cls"}
@@ -222,7 +226,8 @@ def _is_target_root(target, attr_node):
 
 def scan(root=None):
     root = root or repo_root()
-    out = {"random": [], "writes": [], "parallel": [], "seedless": [], "truthy": [], "classes": 0, "files": 0}
+    out = {"random": [], "writes": [], "parallel": [], "seedless": [], "truthy": [], "shared": [], "classes": 0, "files": 0}
+    trees = []
     classes = {}       # name -> list of (rel, ClassDef)  (names are unique enough inside sktime; all candidates are used)
     for path, rel in _files(root):
         try:
@@ -256,6 +261,7 @@ def scan(root=None):
         w = _RandomWalker(rel, np_names, random_names - from_np_random, from_np_random, out["random"], out["parallel"], out["truthy"])
         w.index_parents(tree)
         w.visit(tree)
+        trees.append((rel, tree))
         for node in ast.walk(tree):
             if isinstance(node, ast.ClassDef):
                 classes.setdefault(node.name, []).append((rel, node))
@@ -284,6 +290,42 @@ def scan(root=None):
                 for k, v in mro_methods(b, seen).items():
                     res.setdefault(k, v)
         return res
+
+    # ---- module-level estimator instances used without clone
+    def has_fit(name):
+        return name in classes and "fit" in mro_methods(name)
+
+    for rel, tree in trees:
+        sk = set()
+        for node in ast.walk(tree):
+            if isinstance(node, ast.ImportFrom) and (node.module or "").startswith("sklearn"):
+                for a in node.names:
+                    if (a.asname or a.name)[:1].isupper():
+                        sk.add(a.asname or a.name)
+        glob = {}
+        for node in tree.body:
+            if isinstance(node, ast.Assign) and isinstance(node.value, ast.Call):
+                d = _dotted(node.value.func)
+                cn = d.split(".")[-1] if d else None
+                if cn and (has_fit(cn) or cn in sk):
+                    for t in node.targets:
+                        if isinstance(t, ast.Name):
+                            glob[t.id] = cn
+        if not glob:
+            continue
+        for fn in ast.walk(tree):
+            if not isinstance(fn, (ast.FunctionDef, ast.AsyncFunctionDef)):
+                continue
+            wrapped = set()
+            for node in ast.walk(fn):
+                if isinstance(node, ast.Call):
+                    d = _dotted(node.func)
+                    if d and d.split(".")[-1] in ("clone", "deepcopy", "copy"):
+                        for a in node.args:
+                            wrapped.add(id(a))
+            for node in ast.walk(fn):
+                if isinstance(node, ast.Name) and node.id in glob and isinstance(node.ctx, ast.Load) and id(node) not in wrapped:
+                    out["shared"].append({"file": rel, "func": fn.name, "name": "%s = %s(...)" % (node.id, glob[node.id])})
 
     for name, defs in sorted(classes.items()):
         for rel, cd in defs:
@@ -327,7 +369,7 @@ if __name__ == "__main__":
     import json
     r = scan(sys.argv[1] if len(sys.argv) > 1 else None)
     print(json.dumps({k: (v if not isinstance(v, list) else len(v)) for k, v in r.items()}))
-    for k in ("random", "seedless", "parallel", "truthy"):
+    for k in ("random", "seedless", "parallel", "truthy", "shared"):
         for it in r[k]:
             print(k, it)
     seen = set()
